@@ -9,15 +9,18 @@ import (
 	"strings"
 )
 
-// mergedFilename names an output of a merge after the oldest merged index.
+// mergedFilename names an output of a merge after the youngest merged index.
 // The order of the indexes is restored from the file names when the manager
-// starts, and the outputs take the place of their inputs in that order: a name
-// made from the current time would sort behind an index that was created
-// earlier but added to the list while the merge was running.
-func mergedFilename(indexDir string, oldest *Reader, n int) string {
-	stem := strings.TrimSuffix(filepath.Base(oldest.filename), ".idx")
-	// an index that was merged before is named after its own oldest input already,
-	// count on from its number to stay behind the indexes in front of it
+// starts, and a later index supersedes the earlier ones. The outputs take the
+// place of their inputs: they have to sort behind all of them, also behind one
+// that is still on disk at the next start because a view held it, and in front
+// of every index that was added to the list while the merge was running. A name
+// made from the current time would sort behind an index that was created earlier
+// but added later.
+func mergedFilename(indexDir string, youngest *Reader, n int) string {
+	stem := strings.TrimSuffix(filepath.Base(youngest.filename), ".idx")
+	// an index that was merged before is named after its own youngest input already,
+	// count on from its number to stay behind it
 	if i := strings.Index(stem, ".m"); i >= 0 {
 		if merged, err := strconv.Atoi(stem[i+2:]); err == nil {
 			n += merged + 1
@@ -37,14 +40,14 @@ func Merge(indexDir string, indexes []*Reader) ([]*Reader, error) {
 			idx := indexes[idxIdx]
 			for wIdx := 0; wIdx <= len(ws); wIdx++ {
 				if wIdx == len(ws) {
-					fn := mergedFilename(indexDir, indexes[0], nextName)
+					fn := mergedFilename(indexDir, indexes[len(indexes)-1], nextName)
 					for nextName++; ; nextName++ {
 						// never overwrite a file left behind by an earlier merge, it may be one of the inputs
 						if _, err := os.Stat(fn); err != nil {
 							// the name is free (or the directory can't be read, then creating the file fails)
 							break
 						}
-						fn = mergedFilename(indexDir, indexes[0], nextName)
+						fn = mergedFilename(indexDir, indexes[len(indexes)-1], nextName)
 					}
 					w, err := NewWriter(fn)
 					if err != nil {
